@@ -120,7 +120,7 @@ pub fn run(ctx: &Ctx) -> Report {
         let dense: u64 = ctx.pick(64, 1 << 12, 1 << 16);
         let lm = lmax(ctx.tier == Tier::Thorough).min(if matches!(code, Code::Unary | Code::Rice(_) | Code::Golomb(_)) { 3000 } else { u128::MAX });
         let mut values: Vec<u64> = (0..dense.min(code.max_value().saturating_add(1).max(1))).collect();
-        let grid = value_grid(code, 0, &mut rng, ctx.pick(4, 400, 20000));
+        let grid = value_grid(code, 0, &mut rng, ctx.pick(4, 2000, 20000));
         let ngrid = grid.len();
         values.extend(grid);
         for (ci, &v) in values.iter().enumerate() {
